@@ -71,8 +71,9 @@ def spec_history(entries, ops):
 def run(ctx):
     ctx.rule = ("block-4 texts: shipped-scenario seeds of all 30 types and mutants (duplicate / swap / delete / retag fields, duplicated sequences, "
                 "blank lines, CRLF, leading junk, ':' inside values, numbered tags 50#1), plus synthetic texts with many repeated tags; "
-                "for each text the entries and stamps, 3 random interleavings of 10-40 lookups by tag and option constraint, and the "
-                "sequence split under each configuration; distinct = (tag sequence, history)")
+                "for each text the entries and stamps, 3 random interleavings of 10-40 lookups by tag and option constraint, the "
+                "sequence split under each configuration, and histories of the tracker's own interface (mark the k-th occurrence in any order, read "
+                "without marking, consume from the whole map and from the three maps of the split with ONE tracker); distinct = (tag sequence, history)")
     standard_front(ctx, __import__("c16"))
     rng = ctx.rng
     known, _ = load_known(PROP)
@@ -106,6 +107,9 @@ def run(ctx):
     # more than 65 536 fields: the 16-bit field counter of the stamp wraps (library only: the model side is theorem C16_stamps_refuted_beyond_65535)
     texts.append(("103", "\n".join(":20:" for _ in range(65537)), "wrap"))
     texts.append(("103", "\n".join(":61:%d" % i for i in range(300)) + "\n:62F:X", "many"))
+    # more than 65 536 BYTES but few fields (a long statement): stamps count fields, not bytes
+    texts.append(("940", ":20:S\n" + "\n".join(":61:2609300930C%d,00NTRFREF%d//B%d\n:86:%s" % (i, i, i, "\n".join("NARRATIVE LINE %d OF ENTRY %d %s" % (j, i, "X" * 30) for j in range(6)))
+                                               for i in range(170)) + "\n:62F:C260930EUR1,00", "long-bytes"))
     # synthetic tag sequences: option letters of one number interleaved, sequence markers and sequence-C tags in any order
     POOL = ["20", "21", "21", "21R", "23E", "30", "32B", "19", "71F", "71G", "50K", "50F", "50A", "50C", "50L", "52A", "52D", "57A", "57D", "57C",
             "59", "59A", "59F", "70", "36", "61", "86", "72", "77E", "79", "25", "23", "28D", "20", "50#1", "50#2"]
@@ -141,10 +145,29 @@ def run(ctx):
             cases.append("l_track\t%s\t%s" % (hx, ";".join(ops))); meta.append((c, t, kind, "track", ops))
         for cfg in (cfgs if kind == "synthetic" and rng.random() < 0.3 else ([("MT" + c)] if ("MT" + c) in cfgs else []) + [rng.choice(cfgs)]):
             cases.append("l_split\t%s\t%s" % (hx, cfg)); meta.append((c, t, kind, "split", cfg))
+        # the tracker's own interface: marks in any order, reads without marking, one tracker over the whole map and the maps of the split
+        if tags and (kind in ("synthetic", "seed", "many") or rng.random() < 0.3):
+            cfg = ("MT" + c) if ("MT" + c) in cfgs and rng.random() < 0.5 else rng.choice(cfgs)
+            rep = [x for x in tags if sum(1 for y, _ in mtgen.tokens(t) if norm_tag(y) == x) > 1] or tags
+            for _ in range(2):
+                ops = []
+                focus = rng.sample(rep, min(len(rep), 3))
+                for _ in range(rng.randrange(6, 30)):
+                    tg = rng.choice(focus if rng.random() < 0.8 else tags)
+                    k = rng.random()
+                    if k < 0.25:
+                        ops.append("M|%s|%d" % (tg, rng.randrange(0, 6)))
+                    elif k < 0.5:
+                        ops.append("G|%s" % tg)
+                    else:
+                        ops.append("C|%s|%s" % (rng.choice("abcf"), tg))
+                cases.append("l_api\t%s\t%s\t%s" % (hx, cfg, ";".join(ops))); meta.append((c, t, kind, "api", (cfg, ops)))
     res = run_lib(ctx, cases, "c16")
-    mres = run_model(ctx, [x for x, mm in zip(cases, meta) if mm[2] != "wrap"], "c16")
+    # library only on the two very long texts (the extracted model is quadratic in the text length); their oracles are the Python ones
+    nomodel = ("wrap", "long-bytes")
+    mres = run_model(ctx, [x for x, mm in zip(cases, meta) if mm[2] not in nomodel], "c16")
     it = iter(mres)
-    mres = [None if mm[2] == "wrap" else next(it) for mm in meta]
+    mres = [None if mm[2] in nomodel else next(it) for mm in meta]
     kn = {k["match"]["kind"]: k["id"] for k in known if k.get("match")}
     def hit(kind):
         ctx.known_hits[kn[kind]] = ctx.known_hits.get(kn[kind], 0) + 1
@@ -229,6 +252,57 @@ def run(ctx):
                         mo.append([bytes.fromhex(hv).decode("utf-8", "replace"), None if l == "_" else l, int(p)])
                 if mo != outs:
                     ctx.disagreements.append({"op": op, "kind": kind, "ops": arg[:8], "model": str(mo)[:200], "library": str(outs)[:200], "replay": replay})
+        elif op == "api":
+            cfg, ops = arg
+            outs = r["outs"]
+            ctx.distinct.add((kind, "api", tuple(ops[:6])))
+            ents = entries_of.get(t)
+            # independent reading: a set of used (tag, stamp); M marks the k-th occurrence; G / C give the earliest unused occurrence of
+            # the tag (C: among those the library itself assigns to that part, which the split stream checks) and C marks it
+            used = set()
+            sp = None
+            for cs2, mm2, rr in zip(cases, meta, res):
+                if mm2[3] == "split" and mm2[1] == t and mm2[4] == cfg and rr.get("ok"):
+                    sp = {"a": rr["a"], "b": rr["b"], "c": rr["c"]}
+                    break
+            if ents is not None:
+                for i, (o, got) in enumerate(zip(ops, outs)):
+                    p = o.split("|")
+                    if p[0] == "M":
+                        vals = [e for e in ents if e[0] == p[1]]
+                        if vals:
+                            used.add((p[1], vals[int(p[2]) % len(vals)][2]))
+                        continue
+                    if p[0] == "G":
+                        pool, tg = ents, p[1]
+                    else:
+                        tg = p[2]
+                        if p[1] == "f":
+                            pool = ents
+                        elif sp is not None:
+                            pool = sp[p[1]]
+                        else:
+                            break
+                    cand = [e for e in pool if e[0] == tg and (tg, e[2]) not in used]
+                    want = min(cand, key=lambda e: e[2]) if cand else None
+                    if (want and [want[1], want[2]]) != (got and [got[0], got[1]]):
+                        ctx.violations.append(("tracker history, step %d (%s) of %s: returned %r, the earliest occurrence of the tag not yet marked is %r" % (
+                            i, o, ops[:i + 1][-6:], got, want and [want[1], want[2]]), replay))
+                        break
+                    if p[0] == "C" and want:
+                        used.add((tg, want[2]))
+            if m is not None and m.startswith("OK"):
+                mo = []
+                for x in (m.split("\t")[1].split(";") if "\t" in m and m.split("\t")[1] else []):
+                    if x == "-":
+                        mo.append(None)
+                    elif x.startswith("m"):
+                        mo.append(["m", int(x[1:])])
+                    else:
+                        hv, pp = x.rsplit("@", 1)
+                        mo.append([bytes.fromhex(hv).decode("utf-8", "replace"), int(pp)])
+                if mo != outs:
+                    ctx.disagreements.append({"op": op, "kind": kind, "ops": ops[:8], "model": str(mo)[:200], "library": str(outs)[:200], "replay": replay})
         else:
             a, b, cc = r["a"], r["b"], r["c"]
             allp = sorted([e[2] for e in a + b + cc])
